@@ -86,6 +86,10 @@ EXPLANATION += (
     ' Round 13: what is put into a local that is then cached belongs to the cached value (R-MEMO/key-complete).'
 )
 
+EXPLANATION += (
+    ' Round 14: no function memoised for the life of the process reads a file (R-MEMO/outside-state-not-in-key).'
+)
+
 RULE_TEXT = (
     "one obligation per constructor path, per attribute-assignment site, "
     "per mutation candidate, per helper parameter, per accessor x caller, "
@@ -135,6 +139,7 @@ def check(ctx):
     check_release_cells_unique(ctx)
     from .C05 import sweep_generic_rules
     sweep_generic_rules(ctx, ('taxonomy.',))
+    check_merged_files_share_one_tree(ctx)
 
 
 # ----------------------------------------------------------------------
@@ -1107,3 +1112,93 @@ def check_release_cells_unique(ctx):
     if k == 0:
         raise AnalysisError('get_cell_to_cluster_alias: no insertion into '
                             'the returned table found')
+
+
+def check_merged_files_share_one_tree(ctx, rule='R-GUARD/one-tree-per-merge'):
+    """statistics files are merged under the tree of one of them; the
+    merged file is a strict tree for the clusters of all of them only if
+    every file's tree is that same tree.  Wherever a function of the
+    statistics code builds a tree per file in a loop
+    (`TaxonomyTree.from_precomputed_stats(path)`) and keeps one of them,
+    each further tree is compared with the kept one *as a tree*
+    (`is_equal_to` / `==` / `!=` between the two objects) and a difference
+    raises.  A comparison of parts (hierarchy, leaf names) lets two files
+    that disagree on who is whose parent through."""
+    from ..core.resolve import local_types
+    db = ctx.db
+    n = 0
+    for fi in db.iter_functions():
+        if not fi.module.short.startswith('diff_exp.'):
+            continue
+        for lp in ast.walk(fi.node):
+            if not isinstance(lp, ast.For):
+                continue
+            made = [st for st in lp.body if isinstance(st, ast.Assign)
+                    and isinstance(st.targets[0], ast.Name)
+                    and isinstance(st.value, ast.Call)
+                    and getattr(st.value.func, 'attr', None)
+                    == 'from_precomputed_stats']
+            if not made:
+                continue
+            per_file = made[0].targets[0].id
+            # the tree that is kept: a name assigned from the per-file one
+            kept = {st.targets[0].id for st in ast.walk(lp)
+                    if isinstance(st, ast.Assign)
+                    and isinstance(st.targets[0], ast.Name)
+                    and isinstance(st.value, ast.Name)
+                    and st.value.id == per_file}
+            if not kept:
+                continue
+            n += 1
+            ok = False
+            for iff in ast.walk(lp):
+                if not isinstance(iff, ast.If):
+                    continue
+                test = iff.test
+                neg = False
+                while isinstance(test, ast.UnaryOp) and isinstance(
+                        test.op, ast.Not):
+                    neg = not neg
+                    test = test.operand
+                parts = test.values if isinstance(test, ast.BoolOp) \
+                    and isinstance(test.op, ast.Or) and not neg else [test]
+                for part in parts:
+                    pneg = neg
+                    while isinstance(part, ast.UnaryOp) and isinstance(
+                            part.op, ast.Not):
+                        pneg = not pneg
+                        part = part.operand
+                    pair = None
+                    differs = None
+                    if isinstance(part, ast.Call) and isinstance(
+                            part.func, ast.Attribute) \
+                            and part.func.attr == 'is_equal_to' \
+                            and len(part.args) == 1:
+                        pair = (part.func.value, part.args[0])
+                        differs = pneg
+                    elif isinstance(part, ast.Compare) \
+                            and len(part.ops) == 1 and isinstance(
+                                part.ops[0], (ast.Eq, ast.NotEq)):
+                        pair = (part.left, part.comparators[0])
+                        differs = isinstance(part.ops[0], ast.NotEq) != pneg
+                    if pair is None or not all(
+                            isinstance(x, ast.Name) for x in pair):
+                        continue
+                    names = {pair[0].id, pair[1].id}
+                    if per_file in names and names & kept \
+                            and len(names) == 2:
+                        branch = iff.body if differs else iff.orelse
+                        if any(isinstance(x, ast.Raise)
+                               for st in branch for x in ast.walk(st)):
+                            ok = True
+            ctx.touch(fi)
+            ctx.ob(rule, f'{fi.qual}:for {unparse(lp.target)}', fi.loc(lp),
+                   ok, 'every further tree is compared with the kept one '
+                   'as a tree, and a difference raises' if ok else
+                   f'{fi.name} keeps the tree of one file '
+                   f'(`{sorted(kept)[0]}`) for all of them, and no test '
+                   f'that raises compares `{per_file}` with it as a whole '
+                   '(is_equal_to / == / !=): files whose trees disagree on '
+                   'parentage are merged under one of the trees')
+    ctx.floor(rule, 1)
+    return n
